@@ -113,15 +113,34 @@ def depth_positions(masked, start, end):
             d += 1
 
 
-def brace_depth_at(masked, start, pos):
+_DEPTH_CACHE = {}
+
+
+def _depths(masked):
+    """prefix array: absolute brace depth before each char (cached per text object)"""
+    key = id(masked)
+    ent = _DEPTH_CACHE.get(key)
+    if ent is not None and ent[0] is masked:
+        return ent[1]
+    import array
+    arr = array.array('i', [0]) * (len(masked) + 1)
     d = 0
-    for i in range(start, pos):
-        ch = masked[i]
+    for i, ch in enumerate(masked):
+        arr[i] = d
         if ch == '{':
             d += 1
         elif ch == '}':
             d -= 1
-    return d
+    arr[len(masked)] = d
+    if len(_DEPTH_CACHE) > 8:
+        _DEPTH_CACHE.clear()
+    _DEPTH_CACHE[key] = (masked, arr)
+    return arr
+
+
+def brace_depth_at(masked, start, pos):
+    a = _depths(masked)
+    return a[pos] - a[start]
 
 
 def norm(s):
@@ -197,8 +216,11 @@ def find_component(text, masked, region, comp):
     region: (start, end) inside which items at relative brace depth 0 are searched.
     Returns list of (item_start, body_open or -1, item_end) candidates."""
     rs, re_ = region
-    kind, _, rest = comp.partition(' ')
-    rest = rest.strip()
+    mk = re.match(r'(impl|fn|mod|enum|struct|trait|type)\b', comp)
+    if not mk:
+        raise ScanError('bad locator component: ' + comp)
+    kind = mk.group(1)
+    rest = comp[mk.end():].strip()
     res = []
     base_depth = None
     for kw in _iter_kw(masked, kind, rs, re_):
@@ -291,3 +313,52 @@ def find_loop_body_open(masked, pos, end):
         elif ch == '{' and d == 0:
             return i
     return -1
+
+
+def find_closures(masked, body_open, body_close):
+    """closure literals in source order: (params_start, params_end_exclusive, body_start, body_end_exclusive, braced).
+    A `|` starts a closure when the previous significant char is one of `( , = { ;` or the keyword `move`/`return`;
+    (binary `|` and or-patterns have an operand/pattern before them)."""
+    out = []
+    i = body_open + 1
+    while i < body_close:
+        ch = masked[i]
+        if ch == '|':
+            j = i - 1
+            while j > body_open and masked[j].isspace():
+                j -= 1
+            prev = masked[j]
+            kw = re.search(r'(move|return)$', masked[max(body_open, j - 6):j + 1])
+            if prev in '(,={;' or kw:
+                if masked[i + 1] == '|':
+                    pend = i + 2
+                else:
+                    pend = masked.find('|', i + 1)
+                    if pend < 0:
+                        break
+                    pend += 1
+                k = pend
+                while masked[k].isspace():
+                    k += 1
+                if masked[k] == '{':
+                    e = match_close(masked, k) + 1
+                    out.append((i, pend, k, e, True))
+                else:
+                    d = 0
+                    e = k
+                    while e < body_close:
+                        c = masked[e]
+                        if c in '([{':
+                            d += 1
+                        elif c in ')]}':
+                            if d == 0:
+                                break
+                            d -= 1
+                        elif c in ',;' and d == 0:
+                            break
+                        e += 1
+                    out.append((i, pend, k, e, False))
+                i = pend
+                continue
+        i += 1
+    return out
